@@ -16,8 +16,9 @@ META = {
                         'b in {1, 0.5} (scalar) and b=[1] (array), cut_off in {0, 0.01}, symbolic a_ref, n_cyc, alpha>0',
                'thorough': 'peak-only n<=8; power law n<=5, b additionally 0.25'},
     'outside': ['power-law exponents other than 1, 1/2, 1/4 (transcendental powers; x**(1/b) must be polynomial/algebraic)',
-                'integer-dtype series (real-valued kind only)', 'records containing exact zeros when cut_off = 0 (inf intermediate in a_ref/peak)', 'the inverse relation when the cut-off replaces a peak by 1e-14 '
-                '(precondition: cut_off = 0 for that clause)', 'series longer than the bound'],
+                'records containing exact zeros when cut_off = 0 (inf intermediate in a_ref/peak)', 'the inverse relation when the cut-off replaces a peak by 1e-14 '
+                '(precondition: cut_off = 0 for that clause)', 'series longer than the bound', 'integer-dtype series: the sign-of-product peak test over z3 Int variables is non-linear '
+                'integer arithmetic (did not finish in 10 min at n=3); the real-valued kind is covered'],
     'assumptions': ['series is not constant (property precondition)'],
 }
 
@@ -36,10 +37,10 @@ def _sum(xs):
     return tot
 
 
-def peak_only(ctx, n, split=None):
+def peak_only(ctx, n, split=None, kind='f'):
     pc = ctx.lib.fns.peaks_and_crossings
-    x = ctx.arr('x', n, -100.0, 100.0)
-    c = ctx.real('c', -100.0, 100.0)
+    x = ctx.iarr('x', n, -100, 100) if kind == 'i' else ctx.arr('x', n, -100.0, 100.0)
+    c = ctx.integer('c', -100, 100) if kind == 'i' else ctx.real('c', -100.0, 100.0)
     ctx.assume(S.sym_or(*[x[j] != x[0] for j in range(1, n)]))
     xl = list(x)
     keep = [v + 0.0 for v in xl]
@@ -67,7 +68,7 @@ def peak_only(ctx, n, split=None):
         alts.append(S.sym_and(dj < 0, ctx.eq(S_, half_tv - half_off, sc), *later_flat))
     ctx.claim('pseudo_cyclic_sum', S.sym_or(*alts))
     # constant shift
-    xs = ctx.np.array([v + c for v in xl])
+    xs = (x + c) if kind == 'i' else ctx.np.array([v + c for v in xl])
     d2 = pc.determine_peaks_only_delta_series(xs)
     p2 = pc.determine_pseudo_cyclic_peak_only_series(xs)
     ctx.claim('shift_invariant', S.sym_and(*([ctx.eq(d2[i], d[i], sc) for i in range(n)] +
